@@ -73,6 +73,21 @@ function frames (file, content) {
         out[mode] = { threw: true, message: String(err && err.message), stack: st }
       }
     }
+    // the raw positions of the frames in this file, looked up through the package API with and without a column
+    Error.prepareStackTrace = (e, cs) => cs.map(c => ({ file: c.getFileName(), line: c.getLineNumber(), column: c.getColumnNumber(), fn: c.getFunctionName() }))
+    let err
+    try {
+      const ctx = vm.createContext({ Error, console: { log () {} } })
+      new vm.Script(content, { filename: file }).runInContext(ctx)
+    } catch (e) { err = e }
+    const raw = err && Array.isArray(err.stack) ? err.stack : []
+    out.lineonly = raw.filter(f => f.file === file).map(f => ({
+      fn: f.fn,
+      line: f.line,
+      column: f.column,
+      withcol: sm.getSourcePathAndLineFromSourceMaps(file, f.line, f.column),
+      nocol: sm.getSourcePathAndLineFromSourceMaps(file, f.line)
+    }))
   } finally { Error.prepareStackTrace = saved; Error.stackTraceLimit = lim }
   return out
 }
